@@ -28,6 +28,7 @@ package memdb
 // C14: the skip-list search is right about what it returns (independently of how the list is linked): the node it
 // returns is not smaller than the sought key, "exact" means equal, and the recorded predecessor is smaller.
 //@ spec func nodeKey(p ref, n int) bytes = bytes(p.kvData[p.nodeData[n] : p.nodeData[n] + p.nodeData[n+1]])
+//@ spec func nodeKeyIn(nd ref, kv ref, n int) bytes = bytes(kv[nd[n] : nd[n] + nd[n+1]])
 //@ func (*DB).findGE
 //@   props C14
 //@   safety off
@@ -68,6 +69,7 @@ package memdb
 //@   safety off
 //@   requires !sameblock(p.nodeData, p.prevNode[:])
 //@   ensures [C14:delete-takes-one-entry-away] result == nil ==> p.n == old(p.n) - 1
+//@   guarantees [C14:only-an-entry-with-that-very-key-is-removed] result == nil ==> (node != 0 && mcmp(nodeKeyIn(old(p.nodeData), old(p.kvData), node), bytes(key)) == 0)
 //@   ensures [C14:miss-changes-nothing] result != nil ==> (result == ErrNotFound && p.n == old(p.n) && p.kvSize == old(p.kvSize))
 //@ func (*DB).Contains
 //@   props C14
